@@ -84,7 +84,12 @@ def build(kind, wd, rng=None):
         m, shape = nn.Sequential(nn.Linear(48, 10), nn.ReLU(), nn.Linear(10, 7), nn.Tanh(), nn.Linear(7, 3)), (3, 48)
     else:
         raise KeyError(kind)
-    return m.to(wd).eval(), shape
+    # mostly eval mode (inference, calibration), sometimes train mode: nothing in these models depends on it, so neither
+    # may anything the library does to them (torch's RNG is seeded per case)
+    m = m.to(wd).eval()
+    if bool(torch.rand(()) < 0.3):
+        m.train()
+    return m, shape
 
 
 def batch(rng, shape, wd, mag=None, layouts=True):
